@@ -306,8 +306,29 @@ def decide(idx, seed, tier):
     return res
 
 
+def decide_file(idx, seed):
+    """The pool as a FILE run through the command line (main -f <file> -s): the saved report must hold, in file order, one pruned and
+    one unpruned block for every game - failing games, games after a failing one and games with awkward names included."""
+    from . import c16                      # (c16 imports this module at load time)
+    rng = games.case_rng(seed, PID, "FILE", idx)
+    pool = make_pool(rng, rng.randint(2, 6))
+    text = repr({n: g for n, _, g in pool})
+    res = {"idx": idx, "verdict": "held", "stats": {"files_run_through_main": 1}, "tags": ["FILE"], "key": "file:%d:%s" % (idx, sorted(n for n, _, _ in pool)),
+           "nontrivial": len({k.split(":")[0] for _, k, _ in pool}) > 1}
+    pr, st = c16.check_file(text, "pool_%d" % idx, 3 * 10 ** 7)
+    if pr is None:
+        return {"idx": idx, "verdict": "skipped", "what": "step budget", "tags": ["FILE"]}
+    res["stats"]["report_blocks"] = st.get("blocks", 0)
+    if st.get("blocks", 0) != 2 * len(pool) and not pr:
+        pr = [{"problem": "the report holds %d blocks for %d games" % (st.get("blocks", 0), len(pool))}]
+    if pr:
+        res.update(verdict="violated", what="batch run through main -s: " + pr[0]["problem"], witness=pr[:3], case={"file": idx, "seed": seed})
+    return res
+
+
 def plan(tier, seed):
-    return harness.split("POOL", 320 if tier == "quick" else 4000, 10 if tier == "quick" else 50)
+    return harness.split("POOL", 320 if tier == "quick" else 4000, 10 if tier == "quick" else 50) + \
+        harness.split("FILE", 40 if tier == "quick" else 600, 10 if tier == "quick" else 50)
 
 
 def finish(agg):
@@ -320,11 +341,16 @@ def run_batch(batch):
     monitors.install()
     for idx in range(batch["start"], batch["start"] + batch["count"]):
         EMIT_START(idx)
+        if batch["cls"] == "FILE":
+            yield decide_file(idx, batch["seed"])
+            continue
         yield decide(idx, batch["seed"], batch["tier"])
 
 
 def replay(case):
     monitors.install()
+    if "file" in case:
+        return decide_file(case["file"], case.get("seed", 0))
     return decide(case["idx"], case["seed"], case.get("tier", "quick"))
 
 
